@@ -17,9 +17,11 @@ MODULES = {
     "C05": "c05",
     "C06": "c06",
     "C16": "c16",
+    "C12": "c12",
     "C15": "c15",
     "C07": "c07",
     "C08": "c08",
+    "C20": "c20",
     "C09": "c09",
     "C19": "c19",
     "C10": "c10",
